@@ -25,8 +25,16 @@ Inductive case :=
           number of plaintext bytes the compressed prefix inflates to *)
 | CPly (len need : N) (f : plyfile) (obs : list (N * N * bool * cutpos))
        (* need: end of the last byte / token the header promises *)
-| CHostile (format : string) (len declared : N) (cls ms peak_mb : N).
-       (* a short stream whose header announces [declared] records: class, wall time, peak resident memory *)
+| CHostile (format : string) (len declared : N) (cls ms peak_mb : N)
+       (* a short stream whose header announces [declared] records: class, CPU time of the decoding process, peak
+          resident memory *)
+| CFramed (what : string) (len need : N) (obs : list (N * N * bool))
+       (* observations without a model view: files past the readers' internal block thresholds (a megabyte of bytes
+          is not turned into a Coq term) and the other readers of the anchored files (ply.MeshReader with a
+          caller-made configuration through Read and Load, spz.ReadHeader).  need: end of the last byte / token the
+          reader needs; per cut: class, result == result on the complete file *)
+| CSplatBig (len : N) (obs : list (N * N * (N * bool * bool))).
+       (* .splat past the thresholds: cut, class, (#splats, error?, first #splats equal to those of the full decode) *)
 
 Definition count_of (has : bool) (c : Z) : option Z := if has then Some c else None.
 
@@ -84,6 +92,8 @@ Definition corr_ok (c : case) : bool :=
         | _, None => true
         end) obs
   | CHostile _ _ _ _ _ _ => true
+  | CFramed _ _ _ _ => true
+  | CSplatBig _ _ => true
   end.
 
 (* the property on the implementation's behaviour alone: a cut that removes anything the header promised is
@@ -109,4 +119,8 @@ Definition prop_ok (c : case) : bool :=
   | CHostile _ len _ cls ms peak =>
       (* resources follow the input present, not the count the header announces *)
       (cls =? 1) && (ms <=? 2000 + len / 1000) && (peak <=? 256)
+  | CFramed _ _ need obs => forallb (framed_ok need) obs
+  | CSplatBig _ obs =>
+      forallb (fun '(k, cls, (n, err, eq)) =>
+        (cls =? 0) && (n =? k / 32) && eq && Bool.eqb err (negb (k mod 32 =? 0))) obs
   end.
